@@ -489,6 +489,46 @@ def F28():
         shutil.rmtree(d)
 
 
+def _rot_case(tag):
+    """a valid file with the VR of element `tag` damaged (implicit knowledge of explicit-VR layout: tag(4) VR(2))"""
+    import tempfile, pydicom, struct
+    d = tempfile.mkdtemp(prefix='rot_')
+    good = os.path.join(d, 'good.dcm'); bad = os.path.join(d, 'bad.dcm')
+    pydicom.dcmwrite(good, _mk_ds(ipp=(0., 0., 0.), inst=1), enforce_file_format=True)
+    pydicom.dcmwrite(bad, _mk_ds(ipp=(0., 0., 1.), inst=2), enforce_file_format=True)
+    raw = bytearray(open(bad, 'rb').read())
+    pat = struct.pack('<HH', *tag)
+    i = raw.find(pat, 132)
+    raw[i + 4:i + 6] = b'UY'
+    open(bad, 'wb').write(bytes(raw))
+    return d, good, bad
+
+
+def _rot_run(tag):
+    import shutil
+    d, good, bad = _rot_case(tag)
+    try:
+        with warnings.catch_warnings():
+            warnings.simplefilter('ignore')
+            try:
+                r = dcmstack.parse_and_group([good, bad], warn_on_except=True)
+            except Exception as e:
+                return 'parse_and_group(warn_on_except=True) raised %s for a file whose (%04x,%04x) element header is damaged' % ((type(e).__name__,) + tag)
+            r0 = dcmstack.parse_and_group([good], warn_on_except=True)
+        if sorted(map(repr, r.keys())) != sorted(map(repr, r0.keys())):
+            return 'the damaged file was not isolated: groups %r vs %r' % (list(r.keys()), list(r0.keys()))
+    finally:
+        shutil.rmtree(d)
+
+
+def F29():
+    return _rot_run((0x0008, 0x0016))
+
+
+def F30():
+    return _rot_run((0x7fe0, 0x0010))
+
+
 # ---- open findings (recorded in known-findings.txt, not repaired): these report PRESENT on the current tree
 def N1():
     e = DcmMetaExtension.make_empty((2, 2, 2, 1), np.eye(4), None, 2)
@@ -613,7 +653,7 @@ def deepcopy_ext(e):
 
 
 OPEN = ['N1', 'N2', 'N3', 'N4', 'N6', 'N8', 'N9', 'N11', 'N13', 'N14']
-ALL = ['F28', 'F27', 'F26', 'F25', 'F24', 'F23', 'F22', 'F21', 'F20', 'F19', 'F18', 'F17', 'F16', 'F15', 'F1', 'F2', 'F3', 'F4', 'F5', 'F6', 'F7', 'F8', 'F9', 'F10', 'F11', 'F12', 'F13', 'F14']
+ALL = ['F30', 'F29', 'F28', 'F27', 'F26', 'F25', 'F24', 'F23', 'F22', 'F21', 'F20', 'F19', 'F18', 'F17', 'F16', 'F15', 'F1', 'F2', 'F3', 'F4', 'F5', 'F6', 'F7', 'F8', 'F9', 'F10', 'F11', 'F12', 'F13', 'F14']
 
 if __name__ == '__main__':
     which = sys.argv[1:] or ALL
